@@ -4,9 +4,11 @@ from __future__ import annotations
 import ast
 
 from ..cfg import iter_own
+from ..dataflow import ReachingDefs
+from ..facts import Facts
 from ..loader import AnalysisError, FuncInfo, walk_own
 from ..ownership import BORROWED, FRESH, NAMES, SHALLOW, Ownership
-from .common import call_name, def_use_closure, find_assign_sources, names_in
+from .common import call_name, names_in
 
 
 def merge_func(ctx) -> FuncInfo:
@@ -19,9 +21,9 @@ def merge_func(ctx) -> FuncInfo:
 
 
 def _is_copy_of(expr, p0: str) -> bool:
-    """dict(p0) / p0.copy() / {**p0} / {k: v for k, v in p0.items()} / dict(p0 or {}) / copy.copy(p0)"""
+    """dict(p0) / p0.copy() / {**p0} / dict(p0 or {}) / copy.copy(p0)"""
     if isinstance(expr, ast.Call):
-        if call_name(expr) in ("dict", "copy", "OrderedDict") and len(expr.args) == 1:
+        if call_name(expr) in ("dict", "copy", "OrderedDict") and len(expr.args) == 1 and isinstance(expr.func, ast.Name):
             a0 = expr.args[0]
             if isinstance(a0, ast.Name) and a0.id == p0:
                 return True
@@ -31,11 +33,6 @@ def _is_copy_of(expr, p0: str) -> bool:
             return True
     if isinstance(expr, ast.Dict) and len(expr.keys) == 1 and expr.keys[0] is None and isinstance(expr.values[0], ast.Name) and expr.values[0].id == p0:
         return True
-    if isinstance(expr, ast.DictComp) and len(expr.generators) == 1:
-        g = expr.generators[0]
-        if isinstance(g.iter, ast.Call) and isinstance(g.iter.func, ast.Attribute) and g.iter.func.attr == "items" and isinstance(g.iter.func.value, ast.Name) and g.iter.func.value.id == p0 and not g.ifs:
-            if isinstance(g.target, ast.Tuple) and len(g.target.elts) == 2 and ast.unparse(expr.key) == ast.unparse(g.target.elts[0]) and ast.unparse(expr.value) == ast.unparse(g.target.elts[1]):
-                return True
     return False
 
 
@@ -43,26 +40,13 @@ def _is_empty_dict(expr) -> bool:
     return (isinstance(expr, ast.Dict) and not expr.keys) or (isinstance(expr, ast.Call) and call_name(expr) == "dict" and not expr.args and not expr.keywords)
 
 
-def _none_safe_copy(expr, p0: str) -> bool:
-    """copy of p0 that also works for None: dict(p0 or {})"""
-    if isinstance(expr, ast.Call) and call_name(expr) == "dict" and len(expr.args) == 1:
-        a0 = expr.args[0]
-        return isinstance(a0, ast.BoolOp) and isinstance(a0.op, ast.Or) and len(a0.values) == 2 and _is_empty_dict(a0.values[1])
-    return False
+def _none_safe(expr) -> bool:
+    """the expression contains `<x> or {}`"""
+    return any(isinstance(x, ast.BoolOp) and isinstance(x.op, ast.Or) and len(x.values) == 2 and _is_empty_dict(x.values[1]) for x in ast.walk(expr))
 
 
-def _truthy_test_of(test, name: str):
-    """'pos' if test is true when name is truthy/not None, 'neg' if true when falsy/None, else None"""
-    if isinstance(test, ast.Name) and test.id == name:
-        return "pos"
-    if isinstance(test, ast.UnaryOp) and isinstance(test.op, ast.Not) and isinstance(test.operand, ast.Name) and test.operand.id == name:
-        return "neg"
-    if isinstance(test, ast.Compare) and isinstance(test.left, ast.Name) and test.left.id == name and len(test.ops) == 1 and isinstance(test.comparators[0], ast.Constant) and test.comparators[0].value is None:
-        if isinstance(test.ops[0], ast.IsNot):
-            return "pos"
-        if isinstance(test.ops[0], ast.Is):
-            return "neg"
-    return None
+def _isdict(expr_text: str):
+    return ast.parse(f"isinstance({expr_text}, dict)", mode="eval").body
 
 
 def run(ctx) -> None:
@@ -71,6 +55,9 @@ def run(ctx) -> None:
     f = merge_func(ctx)
     p0, p1 = f.params[0], f.params[1]
     cfg = a.cfg(f)
+    rd = ReachingDefs(a, f)
+    facts = Facts(a, f, rd)
+    normal = lambda s, d, lab: lab not in ("e", "h")  # noqa: E731
 
     # ------------------------------------------------------------ R1 purity
     own = Ownership(a)
@@ -79,58 +66,21 @@ def run(ctx) -> None:
         rep.violate("C17.R1", v.func, v.node, f"{v.what}: merge_config modifies an argument", path=v.chain)
     if not res.violations:
         rep.hold("C17.R1", f, f.node, f"none of the {res.mutation_sites} mutation sites targets a value derived from `{p0}` or `{p1}` (both Borrowed; recursive call analysed to a fixpoint, {own.calls_followed} contexts)")
-    returns = [n for n in walk_own(f.node) if isinstance(n, ast.Return)]
+    returns = [n for n in cfg.live_nodes() if n.kind == "stmt" and isinstance(n.ast, ast.Return)]
     if res.return_level is None or res.return_level == BORROWED:
-        rep.violate("C17.R1", f, returns[0] if returns else f.node, f"the returned dictionary is {NAMES[res.return_level]}: it is (or may be) one of the arguments rather than a new dictionary")
+        rep.violate("C17.R1", f, returns[0].ast if returns else f.node, f"the returned dictionary is {NAMES[res.return_level]}: it is (or may be) one of the arguments rather than a new dictionary")
     else:
-        rep.hold("C17.R1", f, returns[0] if returns else f.node, f"every return yields a new dictionary ({NAMES[res.return_level]}; un-merged nested values are shared with the inputs, which the statement allows)")
+        rep.hold("C17.R1", f, returns[0].ast if returns else f.node, f"every return yields a new dictionary ({NAMES[res.return_level]}; un-merged nested values are shared with the inputs, which the statement allows)")
     for note in res.notes:
         rep.note(note)
-    rep.floor("C17.R1", res.mutation_sites, 2)
+    rep.floor("C17.R1", res.mutation_sites, 1)
 
     # ------------------------------------------------------------ result variable
-    rvars = {n.value.id for n in returns if isinstance(n.value, ast.Name)}
-    if len(rvars) != 1 or len(rvars) != len({ast.unparse(n.value) for n in returns if n.value is not None}):
+    rvars = {rd.text(n.id, n.ast.value) for n in returns if n.ast.value is not None}
+    if len(rvars) != 1 or not all(isinstance(n.ast.value, ast.Name) for n in returns if n.ast.value is not None):
         rep.unrecognised("C17.R2", f, f.node, f"merge_config does not return a single result variable ({sorted(rvars)})")
         return
     R = rvars.pop()
-
-    # ------------------------------------------------------------ R2 / R4 base of the result
-    srcs = find_assign_sources(f, R)
-    if not srcs:
-        rep.unrecognised("C17.R2", f, f.node, f"result variable {R} is never assigned")
-        return
-    for src in srcs:
-        if isinstance(src, ast.IfExp):
-            pol = _truthy_test_of(src.test, p0)
-            t_branch, f_branch = (src.body, src.orelse) if pol == "pos" else (src.orelse, src.body)
-            if pol is None:
-                rep.unrecognised("C17.R2", f, src, f"result base condition `{ast.unparse(src.test)}` is not a test of `{p0}`")
-                continue
-            rep.check("C17.R2", _is_copy_of(t_branch, p0), f, src, f"result starts as a copy of every key of `{p0}`", f"result base `{ast.unparse(t_branch)}` is not a full copy of `{p0}`: keys of the original can be missing (or the original is aliased)")
-            rep.check("C17.R4", _is_empty_dict(f_branch), f, src, f"a falsy/None `{p0}` yields an empty base", f"a falsy/None `{p0}` yields `{ast.unparse(f_branch)}` instead of an empty dictionary")
-        elif _none_safe_copy(src, p0) and _is_copy_of(src, p0):
-            rep.hold("C17.R2", f, src, f"result starts as a copy of every key of `{p0}`")
-            rep.hold("C17.R4", f, src, f"`{p0} or {{}}` makes None behave like an empty dictionary")
-        elif _is_copy_of(src, p0):
-            rep.hold("C17.R2", f, src, f"result starts as a copy of every key of `{p0}`")
-            # None safety must come from a guard
-            nodes = cfg.nodes_containing(src)
-            guarded = False
-            for t in cfg.live_nodes():
-                if t.kind == "test" and _truthy_test_of(t.ast, p0):
-                    want = "t" if _truthy_test_of(t.ast, p0) == "pos" else "f"
-                    good = [d for d, lab in t.succ if lab == want]
-                    bad = [d for d, lab in t.succ if lab in ("t", "f") and lab != want]
-                    if nodes and all(n.id in cfg.reach(good, avoid=[t.id]) and n.id not in cfg.reach(bad, avoid=[t.id]) for n in nodes):
-                        guarded = True
-            rep.check("C17.R4", guarded, f, src, f"copy of `{p0}` is only taken when it is not None/falsy", f"`{ast.unparse(src)}` fails when `{p0}` is None: None does not behave like an empty dictionary")
-        elif _is_empty_dict(src):
-            rep.hold("C17.R4", f, src, "empty base on the falsy path")
-        elif isinstance(src, ast.Name) and src.id == p0:
-            rep.violate("C17.R2", f, src, f"result is bound to the argument `{p0}` itself, not to a copy")
-        else:
-            rep.unrecognised("C17.R2", f, src, f"unrecognised base expression `{ast.unparse(src)}` for the result")
 
     # ------------------------------------------------------------ the override loop
     loops = [n for n in walk_own(f.node) if isinstance(n, ast.For)]
@@ -151,79 +101,144 @@ def run(ctx) -> None:
     if not head or not it_nodes:
         rep.unrecognised("C17.R2", f, loop, "override loop is unreachable")
         return
-    head = head[0]
+    head, itn = head[0], it_nodes[0]
+    body_entry = [d for d, lab in head.succ if lab == "t"]
+    in_loop = cfg.reach(body_entry, avoid=[head.id], edge_ok=normal)
+
+    # ------------------------------------------------------------ R2 / R4 base of the result
+    base_defs = [n for n in cfg.live_nodes() if n.id not in in_loop and n.kind == "stmt" and isinstance(n.ast, (ast.Assign, ast.AnnAssign)) and getattr(n.ast, "value", None) is not None and any(isinstance(t, ast.Name) and t.id == R for t in (n.ast.targets if isinstance(n.ast, ast.Assign) else [n.ast.target]))]
+    copy_nodes = []
+    for n in cfg.live_nodes():
+        if n.id in in_loop:
+            continue
+        if n in base_defs and _is_copy_of(n.ast.value, p0):
+            copy_nodes.append(n)
+        for c, _ in a.node_calls(f, cfg, n):
+            if call_name(c) == "update" and isinstance(c.func, ast.Attribute) and isinstance(c.func.value, ast.Name) and c.func.value.id == R and len(c.args) == 1 and isinstance(c.args[0], ast.Name) and c.args[0].id == p0:
+                copy_nodes.append(n)
+    if not base_defs:
+        rep.unrecognised("C17.R2", f, f.node, f"result variable {R} is never initialised before the loop")
+        return
+    for n in base_defs:
+        v = n.ast.value
+        if isinstance(v, ast.Name) and v.id == p0:
+            rep.violate("C17.R2", f, n.ast, f"result is bound to the argument `{p0}` itself, not to a copy")
+        elif not (_is_copy_of(v, p0) or _is_empty_dict(v)):
+            if isinstance(v, (ast.Name, ast.Attribute)) or (isinstance(v, ast.BoolOp) and any(isinstance(x, ast.Name) and x.id == p0 for x in v.values)):
+                rep.violate("C17.R2", f, n.ast, f"result base `{ast.unparse(v)}` aliases an argument instead of copying it")
+            else:
+                rep.unrecognised("C17.R2", f, n.ast, f"unrecognised base expression `{ast.unparse(v)}` for the result")
+    # every key of the original is in the result whenever the original is non-empty:
+    # from entry to the loop (and to every return) a copy-all node is passed, except on
+    # paths on which `original` is known to be falsy/None
+    def not_p0_falsy_edge(src, dst, lab):
+        if lab in ("e", "h"):
+            return False
+        if src.kind == "test":
+            fm = facts.formula(src.id, src.ast)
+            pos = ("atom", p0)
+            isn = ("atom", f"{p0} is None")
+            if fm == pos and lab == "f":
+                return False
+            if fm == ("not", pos) and lab == "t":
+                return False
+            if fm == isn and lab == "t":
+                return False
+            if fm == ("not", isn) and lab == "f":
+                return False
+        return True
+
+    goals = [head.id] + [r.id for r in returns]
+    ok_base = bool(copy_nodes) and cfg.all_paths_pass(cfg.entry, goals, [c.id for c in copy_nodes], edge_ok=not_p0_falsy_edge)
+    rep.check("C17.R2", ok_base, f, base_defs[0].ast, f"whenever `{p0}` is non-empty the result starts as a copy of all of its keys", f"some path reaches the merge loop / a return with a result that does not contain every key of a non-empty `{p0}`")
+    # None-safety of the copies
+    for c in copy_nodes:
+        expr = c.ast.value if c in base_defs else c.ast
+        safe = _none_safe(expr) or facts.implied(c.id, ast.Name(id=p0, ctx=ast.Load()), True) or facts.implied(c.id, ast.parse(f"{p0} is None", mode="eval").body, False)
+        rep.check("C17.R4", safe, f, c.ast, f"`{p0}` is only copied when it is not None/empty (None behaves like an empty dictionary)", f"`{ast.unparse(expr)[:60]}` is evaluated even when `{p0}` is None")
+    empties = [n for n in base_defs if _is_empty_dict(n.ast.value)]
+    if empties or any(_none_safe(c.ast.value) for c in copy_nodes if c in base_defs):
+        rep.hold("C17.R4", f, (empties or copy_nodes)[0].ast, f"a falsy/None `{p0}` yields an empty base")
+    else:
+        rep.violate("C17.R4", f, base_defs[0].ast, f"no empty base for a None `{p0}`")
+
     # R4: None-safety of the loop
-    none_safe = isinstance(loop.iter.func.value, ast.BoolOp) and isinstance(loop.iter.func.value.op, ast.Or)
-    if not none_safe:
-        for t in cfg.live_nodes():
-            if t.kind == "test" and _truthy_test_of(t.ast, p1):
-                want = "t" if _truthy_test_of(t.ast, p1) == "pos" else "f"
-                good = [d for d, lab in t.succ if lab == want]
-                bad = [d for d, lab in t.succ if lab in ("t", "f") and lab != want]
-                if it_nodes[0].id in cfg.reach(good, avoid=[t.id]) and it_nodes[0].id not in cfg.reach(bad, avoid=[t.id]):
-                    none_safe = True
-    rep.check("C17.R4", none_safe, f, loop, f"the loop is skipped when `{p1}` is None/falsy", f"`{p1}.items()` is evaluated even when `{p1}` is None")
-    # every path through the body assigns R[K]
+    safe_loop = _none_safe(loop.iter) or facts.implied(itn.id, ast.Name(id=p1, ctx=ast.Load()), True) or facts.implied(itn.id, ast.parse(f"{p1} is None", mode="eval").body, False)
+    rep.check("C17.R4", safe_loop, f, loop, f"the loop is skipped when `{p1}` is None/falsy", f"`{p1}.items()` is evaluated even when `{p1}` is None")
+
+    # ------------------------------------------------------------ stores R[K] = ...
     stores = []
     for n, m in a.func_mutations(f):
-        if m.path == (R,) and m.kind == "store" and m.depth_key:
-            tgt = [t for t in m.node.targets if isinstance(t, ast.Subscript)] if isinstance(m.node, ast.Assign) else []
-            if tgt and isinstance(tgt[0].slice, ast.Name) and tgt[0].slice.id == K:
+        if n.id in in_loop and m.path == (R,) and m.kind == "store" and m.depth_key and isinstance(m.node, ast.Assign):
+            tgt = [t for t in m.node.targets if isinstance(t, ast.Subscript)]
+            if tgt and rd.text(n.id, tgt[0].slice) == K:
                 stores.append((n, m))
-    body_entry = [d for d, lab in head.succ if lab == "t"]
-    ok_all = bool(stores) and cfg.all_paths_pass(body_entry[0], [head.id], [n.id for n, _ in stores], edge_ok=lambda s, d, lab: lab != "e")
+    ok_all = bool(stores) and bool(body_entry) and cfg.all_paths_pass(body_entry[0], [head.id], [n.id for n, _ in stores], edge_ok=normal)
     rep.check("C17.R2", ok_all, f, loop, f"every path through the loop body assigns {R}[{K}]", f"some path through the override loop does not assign {R}[{K}]: that override key is lost")
-    rep.floor("C17.R2", len(stores), 2)
+    rep.floor("C17.R2", len(stores), 1)
 
     # ------------------------------------------------------------ R3 right bias and recursion
-    rec_stores, plain_stores, other = [], [], []
-    for n, m in stores:
-        val = m.node.value
-        if isinstance(val, ast.Call):
-            c = a.callee(f, val)
-            if c.kind == "func" and c.func is f:
-                rec_stores.append((n, m, val))
-                continue
-        if isinstance(val, ast.Name) and val.id == V:
-            plain_stores.append((n, m))
-        else:
-            other.append((n, m))
-    for n, m in other:
-        rep.violate("C17.R3", f, m.node, f"the value assigned for an override key is `{ast.unparse(m.node.value)}`, neither the override's value nor the recursive merge")
-    if not plain_stores:
-        rep.violate("C17.R3", f, loop, "no path assigns the override's value: the merge is not right-biased")
-    if not rec_stores:
+    rec_nodes = []  # (cfg node, call)
+    for nid in sorted(in_loop):
+        n = cfg.nodes[nid]
+        for c, cal in a.node_calls(f, cfg, n):
+            if cal.kind == "func" and cal.func is f:
+                rec_nodes.append((n, c))
+    if not rec_nodes:
         rep.violate("C17.R3", f, loop, "no recursive merge for dict/dict collisions")
-    for n, m, call in rec_stores:
+    orig_val_text = None
+    for n, call in rec_nodes:
         if len(call.args) != 2:
             rep.unrecognised("C17.R3", f, call, "recursive call does not pass two positional arguments")
             continue
         a0, a1 = call.args
-        clo0 = def_use_closure(f, a0)
-        first_ok = (R in clo0 or p0 in clo0) and K in clo0 and V not in names_in(a0)
-        second_ok = isinstance(a1, ast.Name) and a1.id == V
+        cl0 = rd.closure_at(n.id, a0)
+        first_ok = (R in cl0.names or p0 in cl0.names or any(isinstance(e, ast.Name) and e.id == R for ex in cl0.exprs for e in ast.walk(ex))) and any(isinstance(e, ast.Name) and e.id == K for ex in cl0.exprs for e in ast.walk(ex))
+        first_ok = first_ok and not any(isinstance(e, ast.Name) and e.id == V for ex in cl0.exprs for e in ast.walk(ex))
+        second_ok = rd.text(n.id, a1) == V or (isinstance(a1, ast.Name) and all(d == head.id or d == n.id for d in rd.at(n.id, a1.id)))
         rep.check("C17.R3", first_ok and second_ok, f, call, "recursive merge receives (original's value, override's value) in that order", f"recursive merge arguments `{ast.unparse(a0)}`, `{ast.unparse(a1)}` are not (original's value, override's value): nested precedence is reversed or wrong")
-        # guard: both isinstance dict tests, conjunctive
-        guard = None
-        for t in cfg.live_nodes():
-            if t.kind == "test":
-                tb = [d for d, lab in t.succ if lab == "t"]
-                fb = [d for d, lab in t.succ if lab == "f"]
-                if tb and n.id in cfg.reach(tb, avoid=[t.id, head.id]) and not (fb and n.id in cfg.reach(fb, avoid=[t.id, head.id])):
-                    guard = t
-        if guard is None:
-            rep.violate("C17.R3", f, call, "recursive merge is unconditional: a dict/scalar collision would recurse into a non-dict")
+        orig_val_text = rd.text(n.id, a0)
+        g0, g1 = _isdict(ast.unparse(a0)), _isdict(ast.unparse(a1))
+        both = facts.implied(n.id, g0, True, within=[head.id]) and facts.implied(n.id, g1, True, within=[head.id])
+        if not both:
+            # also accept Mapping
+            both = all(facts.implied(n.id, ast.parse(f"isinstance({ast.unparse(x)}, Mapping)", mode="eval").body, True, within=[head.id]) for x in (a0, a1))
+        one = facts.implied(n.id, g0, True, within=[head.id]) or facts.implied(n.id, g1, True, within=[head.id])
+        rep.check("C17.R3", both, f, call, "the recursive merge runs only when both values are dictionaries", "the recursive merge " + ("is guarded by only one of the two isinstance tests (or by their disjunction)" if one else "is unconditional") + ": a dict/scalar collision would recurse into a non-dict / drop the override")
+        # the result of the recursion is what gets stored
+        flows = False
+        for sn, m in stores:
+            val = m.node.value
+            if val is call:
+                flows = True
+            elif isinstance(val, ast.Name) and isinstance(n.ast, ast.Assign) and any(isinstance(t, ast.Name) and t.id == val.id for t in n.ast.targets) and n.id in rd.at(sn.id, val.id):
+                flows = True
+        rep.check("C17.R3", flows, f, call, "the merged value is what is stored under the key", "the result of the recursive merge is not stored")
+    # plain stores: on every path that does not take the recursion, the override's value is stored,
+    # and that path is only taken when NOT both values are dictionaries
+    rec_ids = [n.id for n, _ in rec_nodes]
+    plain_ok = False
+    for sn, m in stores:
+        val = m.node.value
+        if any(val is c for _, c in rec_nodes):
             continue
-        g = guard.ast
-        insts = [e for e in ast.walk(g) if isinstance(e, ast.Call) and call_name(e) == "isinstance" and len(e.args) == 2]
-        conj = isinstance(g, ast.BoolOp) and isinstance(g.op, ast.And) and not any(isinstance(x, ast.BoolOp) and isinstance(x.op, ast.Or) for x in ast.walk(g)) and not any(isinstance(x, ast.UnaryOp) and isinstance(x.op, ast.Not) for x in ast.walk(g))
-        tested = {ast.unparse(e.args[0]) for e in insts if ast.unparse(e.args[1]) in ("dict", "Mapping", "MutableMapping")}
-        both = ast.unparse(a0) in tested and V in tested
-        rep.check("C17.R3", conj and both and len(insts) == 2, f, g, "recursion is taken iff both values are dictionaries (two isinstance tests, conjunctive)", f"recursion guard `{ast.unparse(g)}` is not the conjunction of isinstance(<original value>, dict) and isinstance(<override value>, dict)")
-        # on the failing side the override's value is assigned
-        fb = [d for d, lab in guard.succ if lab == "f"]
-        ok_plain = bool(fb) and any(pn.id in cfg.reach(fb, avoid=[guard.id, head.id]) for pn, _ in plain_stores)
-        rep.check("C17.R3", ok_plain, f, g, "when the guard fails the override's value is assigned", "when the recursion guard fails the override's value is not assigned")
+        if isinstance(val, ast.Name):
+            defs = rd.at(sn.id, val.id)
+            src_ok = all(d == head.id or d in rec_ids for d in defs) and (head.id in defs) and rd.def_info(head.id, val.id) is not None and val.id == V or (rd.text(sn.id, val) == V)
+            if not src_ok:
+                rep.violate("C17.R3", f, m.node, f"the value assigned for an override key is `{ast.unparse(val)}`, neither the override's value nor the recursive merge")
+                continue
+            plain_ok = True
+            if rec_nodes and orig_val_text is not None:
+                conj = ast.parse(f"isinstance({orig_val_text}, dict) and isinstance({V}, dict)", mode="eval").body
+                could = facts.possible(sn.id, conj, True, within=[head.id], avoid=rec_ids)
+                reach_without = sn.id in cfg.reach(body_entry, avoid=[head.id] + rec_ids, edge_ok=normal)
+                if reach_without:
+                    rep.check("C17.R3", not could, f, m.node, "the override's value is stored as-is only when NOT both values are dictionaries", "the plain override can be stored although both values are dictionaries (the nested merge is skipped): not a deep merge")
+        else:
+            rep.violate("C17.R3", f, m.node, f"the value assigned for an override key is `{ast.unparse(val)}`, neither the override's value nor the recursive merge")
+    if not plain_ok:
+        rep.violate("C17.R3", f, loop, "no path assigns the override's value: the merge is not right-biased")
 
     # ------------------------------------------------------------ R5 dotted keys are ordinary
     bad = []
